@@ -742,15 +742,22 @@ Proof.
   unfold parse_idl, parse_text. rewrite Heq, Hn. reflexivity.
 Qed.
 
-(** every enum of the result is numbered as Apache Thrift numbers it *)
+(** every enum of the result is numbered as Apache Thrift numbers it, as long as no number reaches
+    the largest 64-bit integer (beyond it Go's addition wraps around: [enum_numbering_overflow]) *)
+Lemma declared_pairs : forall vs, map declared_value (map ev_pair vs) = map (fun v => declared (v_tail v)) vs.
+Proof.
+  intros vs. rewrite map_map. apply map_ext. intros v. unfold declared_value, ev_pair. cbn [fst snd ev_value].
+  destruct (declared (v_tail v)); reflexivity.
+Qed.
+
 Lemma enum_of_numbering : forall e,
+  numbering_in_range (map (fun v => declared (v_tail v)) (e_vs e)) (-1) ->
   map ev_value (en_values (enum_of e)) = thrift_numbering (map (fun v => declared (v_tail v)) (e_vs e)) (-1)
   /\ map ev_name (en_values (enum_of e)) = map (fun v => v_c v :: v_t v) (e_vs e).
 Proof.
-  intros e. unfold enum_of. cbn [en_values].
-  destruct (enum_numbering_full (map ev_pair (e_vs e))) as (Hv & Hn & _).
+  intros e Hr. unfold enum_of. cbn [en_values]. rewrite <- declared_pairs in Hr.
+  destruct (enum_numbering_full (map ev_pair (e_vs e)) Hr) as (Hv & Hn & _).
   split.
-  - rewrite Hv. rewrite map_map. f_equal. apply map_ext. intros v. unfold declared_value, ev_pair. cbn [fst snd ev_value].
-    destruct (declared (v_tail v)); reflexivity.
+  - rewrite Hv. rewrite declared_pairs. reflexivity.
   - rewrite Hn. rewrite map_map. apply map_ext. intros v. reflexivity.
 Qed.
